@@ -2,7 +2,7 @@ import Pywbem.Model.Pull
 open Lean Pywbem.Proto Pywbem.Model.Pull
 
 /-! C14 driver.  Input line: {"nss":[..],"ops":[op,…]} with
-  op = {"op":"open","kind":k,"ns":n,"objs":[..],"max":int|null}
+  op = {"op":"open","kind":k,"ns":n,"objs":[..],"max":int|null,"fql":..,"fq":bool,"ot":int|null,"coe":bool|null}
      | {"op":"pull","kind":k,"ctx":int|null,"max":int|null}
      | {"op":"close","ctx":int|null} | {"op":"addns","ns":n} | {"op":"rmns","ns":n}
      | {"op":"disable","v":bool}
@@ -14,12 +14,23 @@ def kindOf (s : Option String) : Kind :=
   | some "insts" => .insts
   | _ => .withPath
 
+/-- "fql": "absent"|"empty"|"dmtf"|"other", "fq": bool (FilterQuery non-empty), "ot": int|null, "coe": bool|null -/
+def paramsOf (j : Json) : OpenParams :=
+  { fql := match getStr j "fql" with
+      | some "empty" => .empty
+      | some "dmtf" => .dmtf
+      | some "other" => .other
+      | _ => .absent,
+    fqSet := (getBool j "fq").getD false,
+    timeout := getInt j "ot",
+    coe := getBool j "coe" }
+
 def optInt (j : Json) (k : String) : Option Int := getInt j k
 def optNat (j : Json) (k : String) : Option Nat := getNat j k
 
 def parseOp (j : Json) : Option Op :=
   match getStr j "op" with
-  | some "open" => some (.open (kindOf (getStr j "kind")) ((getNat j "ns").getD 0)
+  | some "open" => some (.open (paramsOf j) (kindOf (getStr j "kind")) ((getNat j "ns").getD 0)
                      ((getArr j "objs").filterMap jsonToNat?) (optInt j "max"))
   | some "pull" => some (.pull (kindOf (getStr j "kind")) (optNat j "ctx") (optInt j "max"))
   | some "close" => some (.close (optNat j "ctx"))
